@@ -18,7 +18,7 @@ THEOREMS = [P + n for n in (
     # no abort alternative; the key log as file text
     "reassemble_total", "connOut_fits", "recordsFit_of_total", "export_of_session_file", "exported_lt", "capInfo_ts",
     "tls12_capture_exact_file", "tls13_capture_exact_file", "tls12_capture_exact_text", "tls13_capture_exact_text",
-    "views_of_ignored", "othersFit_of_ignored")]
+    "views_of_ignored", "othersFit_of_ignored", "Ex.tls12_text_instance")]
 # lemmas the theorems rest on (audited with them: same import closure)
 LEMMAS = ["TLX.Lemmas.DissectAddr.dissect_addr_lengths", "TLX.Lemmas.Export.itemsWith_good",
           "TLX.Lemmas.Export.runItems_good", "TLX.Lemmas.Export.framesFrom_wf"]
